@@ -3,7 +3,10 @@
 Tie: real `tfl.layers.RTL(...).build(shape)._rtl_structure`, `set_random_lattice_ensemble`,
 `construct_prefitting_model_config` (all-pairs cover) and `set_crystals_lattice_ensemble` (with
 generated torsion/Laplacian scores) vs `Tfl.Ensembles.*` given the replayed permutations/draws.
-Oracle: every clause of C17 read directly on the real structures + determinism in the seed.
+Oracle: every clause of C17 read directly on the real structures + determinism in the seed: every stream runs the
+real code TWICE per (configuration, seed), with the global NumPy generator re-seeded to an unrelated value in
+between (`scramble`), and compares the two structures (clause `deterministic`; Lean: `Tfl.C17.*_deterministic` state
+the model side -- a structure is a function of (config, draws), draws = gen(seed) with NumPy's generator a parameter).
 crystals_real stream: the UN-PATCHED `set_crystals_lattice_ensemble` (real `_get_torsions_and_laplacians`, whose
 per-lattice normalisation is outside the Lean model) on small prefitting models with assigned lattice kernels --
 oracle only. RTL layers without inputs: error class vs the model only (outside the quantifier)."""
@@ -15,11 +18,14 @@ from common import *
 RULE = ("one PRNG drives: RTL layers (0-4 increasing groups and 0-4 unconstrained groups of 1-3 units, "
         "three input-shape formats, num_lattices 1-12, lattice_rank 1-5, seeds, avoid_intragroup_interaction "
         "on/off, incl. too-small layers); random ensembles (2-9 features, 1-8 lattices, rank 1-5, incl. rank > "
-        "features and too few slots); all-pairs covers (3-10 features, rank 2-6); Crystals final lattices "
-        "(3-8 features, rank 2..n-1, 1-8 lattices with enough slots; symmetric dyadic torsions, dyadic "
-        "Laplacians: positive / sparse / one dominant / tied / some-zero / all-zero); Crystals REAL scoring path "
+        "features and too few slots); all-pairs covers (3-10 features, rank 2-6, plus a rank-1 stream of 2-7 "
+        "features: a pair cannot fit a rank-1 lattice, every lattice has two features); Crystals final lattices "
+        "(3-8 features, rank 2..n-1, 1-8 lattices with enough slots, plus a rank-1 stream; symmetric dyadic "
+        "torsions, dyadic Laplacians: positive / sparse / one dominant / tied / some-zero / all-zero); Crystals "
+        "REAL scoring path "
         "(un-patched set_crystals_lattice_ensemble on prefitting models of 3-5 features with ASSIGNED lattice "
-        "kernels: random / dyadic / constant / constant per lattice / one constant lattice / flat in one feature); "
+        "kernels: random / dyadic / constant / constant per lattice / one constant lattice / flat in one feature; "
+        "rank 2-3, plus two rank-1 configurations); "
         "RTL layers without any input (correspondence only). Non-trivial = structure "
         "with >1 lattice; distinct = (kind, sizes, seed-dependent structure hash).")
 ASSUMPTIONS = [
@@ -34,9 +40,22 @@ ASSUMPTIONS = [
     "prefitting config, determinism); a constant prefitting kernel is 0/0 there (finding F-C17-b)",
     "an RTL layer without inputs admits no arrangement (outside the quantifier); its ZeroDivisionError is only "
     "compared with the model's `.error .other`",
-    "Crystals theorems take 'all importance scores > 0', 'order is a descending sort', 'torsions >= 0' as "
-    "hypotheses; the driver evaluates them on every case",
+    "Crystals theorems take 'all importance scores > 0' (strictly positive: a zero score is F-C17-a), 'order is a "
+    "descending sort', 'torsions >= 0' as hypotheses; the driver evaluates them on every case",
+    "determinism in the seed: NumPy's generator is outside the Lean model (a parameter `gen seed cfg` of "
+    "Tfl.C17.*_deterministic); the real code is run twice per (config, seed) with the global generator re-seeded "
+    "to an unrelated value in between, and RandomState(seed) / np.random.seed(seed) are replayed in the harness",
+    "all-pairs cover: the size oracle is len(lattice) <= max(rank, 2) (Tfl.C17.pair_cover_any_rank); at rank 1 "
+    "every cover lattice has exactly two features (pair_cover_rank_le_one) -- C17 only states the cover clause",
 ]
+
+
+def scramble(case):
+  """re-seed the GLOBAL NumPy generator with a value unrelated to case['seed'] (a function of the case, not of
+  ctx.rng): between the two runs of the determinism check, so that a structure that depends on ambient generator
+  state -- rather than on (config, random_seed) alone -- differs between the runs"""
+  import zlib
+  np.random.seed((zlib.crc32(repr(sorted((k, repr(v)) for k, v in case.items())).encode()) ^ 0x9E3779B9) & 0xFFFFFFFF)
 
 
 def shash(x):
@@ -339,8 +358,13 @@ def check_cover(ctx, case, real, reply):
   for i, j in itertools.combinations(range(n), 2):
     if not any(i in l and j in l for l in lats):
       ctx.fail("pair_covered", key, case, lats, "pair (%d,%d)" % (i, j))
-  if any(len(l) > r for l in lats):
+  ctx.count("cover:rank%s" % ("1" if r == 1 else ">=2"))
+  # a pair cannot fit a lattice of rank 1: the code then makes one two-feature lattice per pair
+  # (Tfl.C17.pair_cover_any_rank: size <= max(rank, 2); pair_cover_rank_le_one: exactly 2 at rank <= 1)
+  if any(len(l) > max(r, 2) for l in lats):
     ctx.fail("size_le_rank", key, case, lats)
+  if r <= 1 and any(len(l) != 2 for l in lats):
+    ctx.fail("rank1_two_feature_lattices", key, case, lats)
   if any(len(set(l)) != len(l) for l in lats):
     ctx.fail("no_repeats", key, case, lats)
   if set(f for l in lats for f in l) != set(range(n)):
@@ -427,6 +451,7 @@ def check_crystals(ctx, case, real, reply):
   n, L, r = case["n"], case["L"], case["r"]
   kind = case["kind"]
   ctx.count("crystals:" + kind)
+  ctx.count("crystals:rank%s" % ("1" if r == 1 else ">=2"))
   toks = reply.split(" ")
   flags = toks[-3:]
   ctx.count("crystals:order_sorted:" + flags[0])
@@ -473,12 +498,12 @@ REAL_KINDS = ["random", "random", "random", "dyadic", "constant", "constant_per_
 CONSTANT_KINDS = ("constant", "constant_per_lattice", "one_constant")
 
 
-def gen_crystals_real(rng, kind=None):
+def gen_crystals_real(rng, kind=None, rank1=False):
   """small prefitting models whose lattice kernels are ASSIGNED (no training): the un-patched
   set_crystals_lattice_ensemble -> _get_final_crystal_lattices -> _get_torsions_and_laplacians path, i.e. the
   per-lattice normalisation `weights -= min; weights /= max` that the score-driven stream replaces"""
   n = rng.randint(3, 5)
-  r = rng.randint(2, min(3, n - 1))
+  r = 1 if rank1 else rng.randint(2, min(3, n - 1))
   L = max(2, -(-n // r)) + rng.choice([0, 0, 1, 2])
   return dict(n=n, L=L, r=r, seed=rng.randint(0, 999), kind=kind or rng.choice(REAL_KINDS),
               kseed=rng.randint(0, 10 ** 6))
@@ -570,6 +595,8 @@ def real_crystals_path(case):
     except Exception as e:
       res["scores"] = "raises " + type(e).__name__
     for slot in ("lats", "again"):
+      if slot == "again":
+        scramble(case)
       mc = config()
       try:
         premade_lib.set_crystals_lattice_ensemble(mc, pc, pm)
@@ -594,7 +621,7 @@ def check_crystals_real(ctx, case, res):
   for i, j in itertools.combinations(range(n), 2):
     if not any(i in l and j in l for l in cover):
       ctx.fail("pair_covered", ckey, case, cover, "pair (%d,%d)" % (i, j))
-  if any(len(l) > r or len(set(l)) != len(l) for l in cover):
+  if any(len(l) > max(r, 2) or len(set(l)) != len(l) for l in cover):
     ctx.fail("size_le_rank", ckey, case, cover)
   nan_scores = isinstance(res["scores"], dict) and not (
       np.all(np.isfinite(np.array(res["scores"]["t"]))) and np.all(np.isfinite(np.array(res["scores"]["lap"]))))
@@ -631,9 +658,9 @@ def check_crystals_real(ctx, case, res):
   ctx.count("crystals_real:repeat_inside_lattice:%d" % int(any(len(set(l)) != len(l) for l in lats)))
 
 
-def gen_crystals(rng):
+def gen_crystals(rng, rank1=False):
   n = rng.randint(3, 8)
-  r = rng.randint(2, n - 1)
+  r = 1 if rank1 else rng.randint(2, n - 1)
   L = max(1, -(-n // r)) + rng.choice([0, 0, 1, 2, 3, 4])
   L = min(L, 8)
   while L * r < n:
@@ -653,12 +680,14 @@ def run_cases(ctx, cases):
   for kind, case in cases:
     if kind == "rtl":
       real = real_rtl(case, call=case.get("call", False))
+      scramble(case)
       again = real_rtl(case)
       if (real[0], real[2]) != (again[0], again[2]):
         ctx.fail("deterministic", dict(kind="rtl", cls="rtl"), case, dict(first=real[0], second=again[0]))
       lines.append(rtl_line(case))
     elif kind == "random":
       real = real_random(case, record=True)
+      scramble(case)
       again = real_random(case, record=False)
       if (real[0], real[1]) != (again[0], again[1]):
         ctx.fail("deterministic", dict(kind="random", cls="random"), case, dict(first=real[0], second=again[0]))
@@ -666,13 +695,17 @@ def run_cases(ctx, cases):
       lines.append("ens.random %d %d %d %s %s" % (case["n"], case["L"], case["r"], il(rec.first), il2(rec.fill)))
     elif kind == "cover":
       real = real_cover(case)
-      if real != real_cover(case):
-        ctx.fail("deterministic", dict(kind="cover", cls="cover"), case, real[0])
+      scramble(case)
+      again = real_cover(case)
+      if real != again:
+        ctx.fail("deterministic", dict(kind="cover", cls="cover"), case, dict(first=real[0], second=again[0]))
       lines.append(cover_line(case))
     else:
       real = real_crystals(case)
-      if real != real_crystals(case):
-        ctx.fail("deterministic", dict(kind="crystals", cls="crystals"), case, real[0])
+      scramble(case)
+      again = real_crystals(case)
+      if real != again:
+        ctx.fail("deterministic", dict(kind="crystals", cls="crystals"), case, dict(first=real[0], second=again[0]))
       lines.append(crystals_line(case))
     reals.append(real)
   replies = run_driver(lines)
@@ -708,6 +741,14 @@ def run(ctx):
   for k in range(nreal):
     # every kind at least once per run, the rest drawn
     cases.append(("crystals_real", gen_crystals_real(rng, kind=sorted(set(REAL_KINDS))[k] if k < len(set(REAL_KINDS)) else None)))
+  # ---- rank 1 (appended AFTER the older streams so that their cases stay the same per seed): the cover clause has
+  # no rank hypothesis (pair_cover_any_rank), the final Crystals theorem covers r = 1 (r < n <= L*r)
+  for _ in range(ctx.n(16, 300)):
+    cases.append(("cover", dict(n=rng.randint(2, 7), L=rng.randint(1, 5), r=1, seed=rng.randint(0, 10 ** 6))))
+  for _ in range(ctx.n(16, 300)):
+    cases.append(("crystals", gen_crystals(rng, rank1=True)))
+  for _ in range(ctx.n(2, 20)):
+    cases.append(("crystals_real", gen_crystals_real(rng, kind=rng.choice(["random", "dyadic"]), rank1=True)))
   run_cases(ctx, cases)
 
 
